@@ -1247,37 +1247,27 @@ def c10_spawn(ctx):
     st = _fn(ctx, 'desync::SchedulerCore::schedule_thread', R, out)
     if not st:
         return out
-    d = calls(st, 'SchedulerCore::schedule_dormant')
-    sp = calls(st, 'SchedulerCore::spawn_thread_if_less_than_maximum')
-    rec = calls(st, 'SchedulerCore::schedule_thread')
     key = 'schedule_thread|dormant-else-spawn-then-retry'
-    # the retry is a recursive call, or - written as a loop - the way back to the schedule_dormant call
-    looped = len(d) == 1 and len(rec) == 0 and d[0][0] in st.reachable_blocks(d[0][1]['target']) if (len(d) == 1 and d[0][1]['target'] is not None) else False
-    if looped:
-        rec = [d[0]]
-    if len(d) != 1 or len(sp) != 1 or len(rec) != 1:
-        out.append(bad(R, key, 'expected schedule_dormant, spawn_thread_if_less_than_maximum and a retry (found %d/%d/%d)' % (len(d), len(sp), len(rec)), fn=st.name))
+    # decided on the paths of one scheduling request (dsa/poolview.py): whether the spawn attempt and the retry are written in
+    # schedule_thread or at the end of schedule_dormant, as a recursive call or as a loop, is not the question
+    from .poolview import pool_view
+    pv = pool_view(ctx)
+    if not pv.ok or not pv.walk_none or not pv.counts or not pv.pushes:
+        out.append(bad(R, key, 'expected a walk over the thread table, a room test and the addition of a thread on the paths of a scheduling request (found %d/%d/%d)'
+                       % (len(pv.walk_none) if pv.ok else 0, len(pv.counts) if pv.ok else 0, len(pv.pushes) if pv.ok else 0), fn=st.name))
         return out
-    ed = result_edges(st, d[0][0])
-    es = result_edges(st, sp[0][0])
-    # `if !schedule_dormant(..)`: the Not may sit between call and switch
-    f_edge = None
-    if ed:
-        f_edge = ed.get('0')
-    if ed is None:
-        # look for Not(result)
-        for bb, b in enumerate(st.blocks):
-            for s in b['stmts']:
-                if s['k'] == 'assign' and s['rv']['k'] == 'unop' and s['rv']['op'] == 'Not' and s['rv']['a']['k'] in ('move', 'copy') and s['rv']['a']['pl']['l'] == d[0][1]['dest']['l']:
-                    sw = switch_of_local(st, s['pl']['l'], bb)
-                    if sw:
-                        f_edge = sw[2]   # Not(result) true  <=> result false
-    t_edge = es.get('otherwise') if es else None
-    if f_edge is None or t_edge is None:
-        out.append(undecided(R, key, 'shape not recognised'))
-    elif edom(st, f_edge, sp[0][0]) and (looped or edom(st, t_edge, rec[0][0])) \
-            and st.must_pass(f_edge, set(st.exits()), {sp[0][0]}) and st.must_pass(t_edge, set(st.exits()), {rec[0][0]}):
-        out.append(ok(R, key, 'no dormant thread -> always try to spawn below the maximum -> on success always retry', fn=st.name))
+    # the retry: a recursive call, or - written as a loop - the way back to the walk
+    retries = set(pv.retries)
+    fnv = pv.fn
+    for bb, t in fnv.calls():
+        if (t['func'].get('fn') or '').endswith('Iterator::next') and any(bb in fnv.reachable_blocks(p_) for p_ in pv.pushes):
+            e_ = result_edges(fnv, bb)
+            if e_ and edge_for(e_, OPTION, 'None') in pv.walk_none:
+                retries.add(bb)
+    a_ok = all(pv.always_between(n_, pv.exits, pv.counts) for n_ in pv.walk_none)
+    b_ok = bool(retries) and all(pv.always_between(p_, pv.exits, retries) for p_ in pv.pushes)
+    if a_ok and b_ok:
+        out.append(ok(R, key, 'no dormant thread -> always try to spawn below the maximum -> on success always retry (%s)' % pv.where(), fn=st.name))
     else:
         out.append(bad(R, key, 'a queue that found no dormant thread does not (always) lead to a spawn attempt followed by a retry', fn=st.name))
     return out
